@@ -555,8 +555,18 @@ def main(argv):
         c.fail_obligation("harness-build", blog[-1500:])
         c.finish()
     # 4. sub-checks: run the real code, evaluate model + monitors inside coqc, report violations with concrete inputs
-    for sc in SUBCHECKS:
+    import time as _t
+    c.coverage["stage_seconds"] = {"translate+prove+build": round(_t.time() - c.t0, 1)}
+    from concurrent.futures import ThreadPoolExecutor
+
+    def timed(sc):
+        t1 = _t.time()
         sc(c, ctx)
+        c.coverage["stage_seconds"][sc.__name__] = round(_t.time() - t1, 1)
+    # the sub-checks are independent (own harness sub-command, own Cases/*.v file); run them side by side
+    with ThreadPoolExecutor(max_workers=4) as ex:
+        for fut in [ex.submit(timed, sc) for sc in SUBCHECKS]:
+            fut.result()
     # 5. an obligation broke but no sub-check found a failing input on the implementation
     if not ctx.proved and not any(v[3] for v in c.violations):
         b = getattr(c, "broken", {"file": "?", "log": ""})
